@@ -197,6 +197,19 @@ Proof. exact interface_doc_no_crash. Qed.
 (* ------------------------------------------------------------------ *)
 (* 3. termination of traversal from any iterator / of Interface()      *)
 
+(* Interface() of the whole document on ANY tape (since fix F19; before, a member array
+   pointing backwards made it loop, see 5b below) *)
+Theorem interface_doc_fine_any : forall pj, fine (interface_doc pj).
+Proof. intros. eapply okP_fine, interface_doc_total_any. Qed.
+
+Theorem interface_val_fine_any : forall pj i, iter_ok pj i -> 0 < i_off i ->
+  pj_tape pj <> [] -> fine (interface_val (S (length (pj_tape pj))) pj i).
+Proof.
+  intros pj i Hok Ho Hne. eapply okP_fine, interface_val_total_any; auto.
+  destruct Hok as ([K0 K1] & _). unfold m, tlen in *.
+  destruct (pj_tape pj); [now elim Hne|]. cbn [length] in *. lia.
+Qed.
+
 Theorem interface_doc_fine : forall pj, member_arrays_forward pj -> fine (interface_doc pj).
 Proof. intros. eapply okP_fine, interface_doc_total; assumption. Qed.
 
